@@ -34,6 +34,7 @@ def plan(tier, seed):
     n = SHARDS[tier]
     specs = [{"kind": "env", "count": N[tier] // n} for _ in range(n)]
     specs.append({"kind": "inplace", "count": 60 if tier == "quick" else 900})
+    specs.append({"kind": "via_verifiers", "count": 1200 if tier == "quick" else 30000})
     for T in ([4, 8] if tier == "quick" else [2, 4, 8, 16, 16]):
         specs.append({"kind": "threads", "threads": T, "count": 300 if tier == "quick" else 2500})
     return specs
@@ -93,7 +94,32 @@ def run_threads(spec, rec, lib):
     rec.sample({"threads": spec["threads"], "calls": spec["count"]})
 
 
+def run_via_verifiers(spec, rec, lib):
+    """the same soundness through the callers of the envelope verifier: what verify_delegation / verify_root accept must have enough
+    valid authorized signatures over the canonical bytes of exactly the payload PRESENTED (documents respelled after signing,
+    whole numbers spelled as floats, calendar-boundary dates ...)"""
+    from ..engines import delegation, rootchain
+
+    rng = random.Random(spec["seed"])
+    for i in range(spec["count"]):
+        if i % 3 == 2:
+            case = rootchain.gen_pair(rng)
+            model, failed, out, _m = rootchain.evaluate(case, lib)
+            fn, label = "verify_root", str(case.get("row"))
+        else:
+            case = delegation.gen_case(rng)
+            model, failed, out, _m = delegation.evaluate(case, lib)
+            fn, label = "verify_delegation", case["stratum"]
+        rec.case("via|%s|%s|%s" % (fn, label, ",".join(sorted(failed))))
+        rec.hist("via_verifier", fn)
+        if out.accepted and model.v == models.REJECT and ("threshold" in failed or "old_rule" in failed or "new_rule" in failed):
+            rec.violation("unsound-accept/%s/failed=%s" % (fn, ",".join(sorted(failed))),
+                          "%s accepted although too few valid authorized signatures cover the payload presented (%s)" % (fn, model.why), case)
+
+
 def run_shard(spec, rec, lib):
+    if spec.get("kind") == "via_verifiers":
+        return run_via_verifiers(spec, rec, lib)
     if spec.get("kind") == "threads":
         return run_threads(spec, rec, lib)
     if spec.get("kind") == "inplace":
@@ -218,6 +244,15 @@ def check_primitive_events(case, signable, events, rec, model, out):
 
 
 def replay(case, rec, lib):
+    if case.get("kind") in ("deleg", "rootpair"):
+        from ..engines import delegation, rootchain
+
+        eng = delegation if case["kind"] == "deleg" else rootchain
+        model, failed, out, _m = eng.evaluate(case, lib)
+        rec.case("replay")
+        if out.accepted and model.v == models.REJECT:
+            rec.violation("unsound-accept/%s/failed=%s" % ("verify_delegation" if case["kind"] == "deleg" else "verify_root", ",".join(sorted(failed))), model.why, case)
+        return
     if case.get("kind") == "inplace_env":
         print("history-dependent witness (ops: %s); re-running in-place histories" % "->".join(case["ops"]))
         run_inplace({"seed": 1, "count": 200}, rec, lib)
